@@ -408,21 +408,21 @@ func singleProp(c SingleCase, r *pbt.R) error {
 	}
 }
 
-func runSingle[T comparable](a []T, fn keyFn[T], r *pbt.R) error {
+func singleChecks[T comparable](a []T, arg func() []T, fn keyFn[T]) error {
 	in := func() string { return show(a) }
 
 	wantU := refUnique(a)
-	if got := gogu.Unique(clone(a)); !eq(got, wantU) {
+	if got := gogu.Unique(arg()); !eq(got, wantU) {
 		return fmt.Errorf("Unique(%s) = %s, want %s (first occurrence of each distinct value, in order)", in(), show(got), show(wantU))
 	}
 
 	wantUB := refUniqueBy(a, fn.f)
-	if got := gogu.UniqueBy(clone(a), fn.f); !eq(got, wantUB) {
+	if got := gogu.UniqueBy(arg(), fn.f); !eq(got, wantUB) {
 		return fmt.Errorf("UniqueBy(%s, %s) = %s, want %s (first element of each distinct image, in order)", in(), fn.name, show(got), show(wantUB))
 	}
 
 	dups, first := refDuplicates(a)
-	got := gogu.Duplicate(clone(a))
+	got := gogu.Duplicate(arg())
 	if hasDup(got) {
 		return fmt.Errorf("Duplicate(%s) = %s repeats a value; want each of %s once (any order)", in(), show(got), show(dups))
 	}
@@ -437,7 +437,7 @@ func runSingle[T comparable](a []T, fn keyFn[T], r *pbt.R) error {
 		}
 	}
 
-	gotIdx := gogu.DuplicateWithIndex(clone(a))
+	gotIdx := gogu.DuplicateWithIndex(arg())
 	okIdx := len(gotIdx) == len(dups)
 	for i, d := range dups {
 		if idx, ok := gotIdx[d]; !ok || idx != first[i] {
@@ -447,7 +447,33 @@ func runSingle[T comparable](a []T, fn keyFn[T], r *pbt.R) error {
 	if !okIdx {
 		return fmt.Errorf("DuplicateWithIndex(%s) = %s, want exactly the values %s mapped to their first indices %v", in(), showMap(gotIdx, a), show(dups), first)
 	}
+	return nil
+}
 
+func runSingle[T comparable](a []T, fn keyFn[T], r *pbt.R) error {
+	if err := singleChecks(a, func() []T { return clone(a) }, fn); err != nil {
+		return err
+	}
+	if len(a) >= 2 && len(a) <= 300 {
+		// One array serves every call of two rounds; between the rounds it is rewritten in place with its own reversal (same
+		// address, same length, other first occurrences): an answer remembered per slice would be stale.
+		buf := clone(a)
+		same := func() []T { return buf }
+		if err := singleChecks(a, same, fn); err != nil {
+			return fmt.Errorf("one array for every call: %v", err)
+		}
+		rev := make([]T, len(a))
+		for i := range a {
+			rev[i] = a[len(a)-1-i]
+		}
+		copy(buf, rev)
+		if err := singleChecks(rev, same, fn); err != nil {
+			return fmt.Errorf("the same array after it was reversed in place (it held %s before): %v", show(a), err)
+		}
+	}
+	wantU := refUnique(a)
+	wantUB := refUniqueBy(a, fn.f)
+	dups, _ := refDuplicates(a)
 	collapses := len(wantUB) < len(wantU)
 	r.NonTrivialIf(len(wantU) < len(a), "input has a repeated value")
 	r.NonTrivialIf(collapses, "key function collapses distinct values")
